@@ -49,6 +49,16 @@ VscIdsOf(e) == [ i \in DOMAIN e.res.recv |-> e.res.recv[i].id ]
 (* the behaviour: follow the log                                            *)
 (* ----------------------------------------------------------------------- *)
 
+Get(f, k) == IF k \in DOMAIN f THEN f[k] ELSE 0
+\* C16: what the consumer's reward step has to do with the fees collected in this block
+ConsShare(st, d)  == (Get(st.bal.fee, d) * st.fracBp) \div 10000
+TransmitDue(st, h) == h - st.lastTx >= st.bpdt
+Sendable(st, h, d) == TransmitDue(st, h) /\ st.xferState = "STATE_OPEN" /\ d \in SeqToSet(st.allowedDenoms)
+ExpectedTransfers(pre, post) ==
+  LET ds == DOMAIN pre.bal.fee \cup DOMAIN pre.bal.toSend IN
+  [ d \in { x \in ds : Sendable(pre, post.h, x) /\ Get(pre.bal.toSend, x) + Get(pre.bal.fee, x) - ConsShare(pre, x) > 0 } |->
+      Get(pre.bal.toSend, d) + Get(pre.bal.fee, d) - ConsShare(pre, d) ]
+
 G0(s) == [ sets |-> << >>, pkt |-> << >>, recvMax |-> << >>, blockVsc |-> s.vscId, lpsPrev |-> s.lps,
            expSent |-> << >>, sent |-> << >>,
            replaced |-> {},                 \* C06: [c, k, v, until] for keys replaced on a launched consumer
@@ -58,7 +68,9 @@ G0(s) == [ sets |-> << >>, pkt |-> << >>, recvMax |-> << >>, blockVsc |-> s.vscI
            meter0 |-> s.meter, replSum |-> 0, jailSum |-> 0, maxJ |-> 0, lastRepl |-> -1000000,   \* C09
            blockSent |-> << >>,             \* C09: consumer chain |-> packet sending was permitted at its last end-block
            removeFailed |-> {},
-           forged |-> {} ]                  \* consumer chains that behaved maliciously (their own invariants are not claimed)
+           forged |-> {},
+           stoppedAtStart |-> {},
+           expXfer |-> << >> ]              \* C16: consumer chain |-> denom |-> amount its end-block must hand to the transfer module          \* C11: channels of consumers that were already stopped when the current provider block began                  \* consumer chains that behaved maliciously (their own invariants are not claimed)
 
 \* flattened ids of the time-queue entries that are due at time `now`
 FlattenDue(q, now) ==
@@ -90,7 +102,8 @@ NextG(e, np) ==
              THEN [g EXCEPT !.expSent = (c :> p.cons[c].pendingVSC) @@ g.expSent]
              ELSE g
       [] e.a = "Block" ->
-           [g EXCEPT !.blockVsc = np.vscId, !.lpsPrev = np.lps, !.expSent = << >>,
+           [g EXCEPT !.stoppedAtStart = { np.cons[c].chan : c \in { c2 \in DOMAIN np.cons : np.cons[c2].phase \in {"stopped", "deleted"} /\ np.cons[c2].chan # "" } },
+                     !.blockVsc = np.vscId, !.lpsPrev = np.lps, !.expSent = << >>,
                      !.dueSeq = << >>, !.nLaunch = 0, !.remSeq = << >>, !.nRemove = 0]
       [] e.a = "PLaunchDue" -> [g EXCEPT !.dueSeq = Take(FlattenDue(p.launchQ, np.t), 200), !.nLaunch = 0]
       [] e.a \in {"PLaunchFail"} -> [g EXCEPT !.nLaunch = g.nLaunch + 1]
@@ -110,6 +123,9 @@ NextG(e, np) ==
              ELSE g
       [] OTHER -> g
   ELSE IF e.a = "Forge" THEN [g EXCEPT !.forged = g.forged \cup {e.chain}]
+  ELSE IF e.a = "CEndRD" /\ e.chain \in DOMAIN cs THEN
+    [g EXCEPT !.expXfer = (e.chain :> ExpectedTransfers(cs[e.chain], IF Same(e) THEN cs[e.chain] ELSE e.s)) @@ g.expXfer]
+  ELSE IF e.a = "Block" /\ ~IsProv(e) THEN [g EXCEPT !.expXfer = (e.chain :> << >>) @@ g.expXfer]
   ELSE
     IF Txn(e, "Recv") /\ OkTx(e) /\ Has(e.res, "recv") /\ \E i \in DOMAIN e.res.recv : e.res.recv[i].type = "vsc"
       THEN [g EXCEPT !.recvMax = (e.chain :> Max({RecvMax(e.chain)} \cup { e.res.recv[i].id : i \in { j \in DOMAIN e.res.recv : e.res.recv[j].type = "vsc" } })) @@ g.recvMax]
@@ -852,9 +868,8 @@ C11_NoUpdates == [][
          /\ p'.cons[c].valKey = p.cons[c].valKey \/ SubSeq(Ev.a, 1, 3) = "Tx:"
          /\ p'.cons[c].client = p.cons[c].client /\ p'.cons[c].client # ""
          /\ p'.cons[c].minEvH = p.cons[c].minEvH /\ p'.cons[c].genesis = p.cons[c].genesis
-    /\ (Ev.a = "Block") =>
-         \A c \in Cons(p') : (p'.cons[c].phase \in {"stopped", "deleted"} /\ c \in Cons(p) /\ p.cons[c].phase \in {"stopped", "deleted"} /\ p.cons[c].chan # "") =>
-           SelectSeq(Ev.res.sent, LAMBDA x : x.type = "vsc" /\ x.chan = p.cons[c].chan) = << >>
+    \* nothing is sent in a block to a consumer that was already stopped when the block began
+    /\ (Ev.a = "Block") => SelectSeq(Ev.res.sent, LAMBDA x : x.type = "vsc" /\ x.chan \in g.stoppedAtStart) = << >>
     /\ (Ev.a \in {"PQueueVSC", "PSendVSC"}) => p.cons[Ev.args.c].phase = "launched"
   ]_vars
 
@@ -1005,5 +1020,101 @@ C17_FirstVSC == [][
 \* packets and acknowledgements, validator updates) as computed by each replica
 C18_Agree == (E.a = "Obs") => (E.args.r1 = E.args.r2 /\ E.args.r2 = E.args.r3)
 C18_SameLength == (E.a = "ObsLen") => (E.args.r1 = E.args.r2 /\ E.args.r2 = E.args.r3)
+
+
+(* ======================================================================= *)
+(* C16  rewards: split, transmission, crediting, payout, conservation       *)
+(* ======================================================================= *)
+
+\* consumer end-block: fees are split exactly, the provider's share accumulates or is handed over completely
+C16_Split == [][
+  (CStep /\ Ev.a = "CEndRD" /\ Ev.chain \in DOMAIN cs) =>
+    LET pre == cs[Ev.chain]  post == cs'[Ev.chain]
+        ds == DOMAIN pre.bal.fee \cup DOMAIN pre.bal.toSend \cup DOMAIN pre.bal.redist IN
+    /\ post.bal.fee = << >>
+    /\ \A d \in ds :
+         /\ Get(post.bal.redist, d) = Get(pre.bal.redist, d) + ConsShare(pre, d)
+         /\ Get(post.bal.toSend, d) =
+              (IF Sendable(pre, post.h, d) THEN 0 ELSE Get(pre.bal.toSend, d) + Get(pre.bal.fee, d) - ConsShare(pre, d))
+    /\ post.lastTx = (IF TransmitDue(pre, post.h) THEN post.h ELSE pre.lastTx)
+  ]_vars
+
+\* exactly the expected amounts leave as reward transfers, addressed to the provider's pool and tagged with this consumer
+XferSum(sent, d) == FoldSet(LAMBDA i, acc : acc + sent[i].amt, 0, { i \in DOMAIN sent : sent[i].type = "transfer" /\ sent[i].denom = d })
+C16_Transmit == [][
+  (CStep /\ Ev.a = "Block" /\ Ev.chain \in DOMAIN g.expXfer /\ Ev.chain \notin g.forged) =>
+    LET exp == g.expXfer[Ev.chain]  sent == Ev.res.sent IN
+    /\ \A d \in DOMAIN exp : XferSum(sent, d) = exp[d]
+    /\ \A i \in DOMAIN sent : (sent[i].type = "transfer") =>
+         (sent[i].denom \in DOMAIN exp /\ sent[i].toPool /\ sent[i].memoC = Ev.chain)
+  ]_vars
+
+CreditInt(s, c, d)  == IF d \in DOMAIN s.cons[c].credit THEN s.cons[c].credit[d][1] ELSE 0
+CreditFrac(s, c, d) == IF d \in DOMAIN s.cons[c].credit THEN s.cons[c].credit[d][2] ELSE 0
+AllDenoms(s) == DOMAIN s.pool \cup UNION { DOMAIN s.cons[c].credit : c \in Cons(s) }
+RewardRecv(e) == Txn(e, "Recv") /\ OkTx(e) /\ Has(e.res, "recv") /\ Len(e.res.recv) = 1 /\ e.res.recv[1].type = "transfer" /\ e.res.recv[1].toPool
+
+\* a reward transfer into the pool is credited, in full, to the sending consumer and to nobody else
+C16_Credit == [][
+  (PStep /\ RewardRecv(Ev) /\ Ev.res.acks = <<"v1">>) =>
+    LET pk == Ev.res.recv[1]
+        c  == IF pk.memoC # "" THEN pk.memoC ELSE Ev.args.c
+        ds == { d \in AllDenoms(p') : Get(p'.pool, d) # Get(p.pool, d) } IN
+    /\ Cardinality(ds) = 1
+    /\ \A d \in ds :
+         /\ Get(p'.pool, d) = Get(p.pool, d) + pk.amt
+         /\ (c \in Cons(p)) => (CreditInt(p', c, d) = CreditInt(p, c, d) + pk.amt /\ CreditFrac(p', c, d) = CreditFrac(p, c, d))
+         /\ \A c2 \in Cons(p) : (c2 # c) => p'.cons[c2].credit = p.cons[c2].credit
+         /\ Get(p'.supply, d) = Get(p.supply, d) + pk.amt
+  ]_vars
+
+\* credits and the pool move nowhere else; vouchers are minted nowhere else
+C16_OnlyThere == [][
+  PStep =>
+    /\ \A c \in Cons(p) \cap Cons(p') :
+         (p'.cons[c].credit # p.cons[c].credit) => (RewardRecv(Ev) \/ (Ev.a = "PAllocateOK" /\ Ev.args.c = c))
+    /\ (p'.pool # p.pool) => (RewardRecv(Ev) \/ Ev.a = "PAllocateOK" \/ (Txn(Ev, "Recv") /\ OkTx(Ev)))
+    /\ (p'.supply # p.supply) => (Txn(Ev, "Recv") /\ OkTx(Ev))
+  ]_vars
+
+\* the pool always covers what is credited
+C16_Solvent ==
+  (IsProv(E) /\ E.a # "Init") =>
+    \A d \in AllDenoms(p) :
+      Get(p.pool, d) >= FoldSet(LAMBDA c, acc : acc + CreditInt(p, c, d) + CreditFrac(p, c, d), 0, Cons(p))
+
+EligibleForRewards(s, c) == { v \in DOMAIN s.cons[c].cvs : s.h - s.cons[c].cvs[v].join >= s.epochsToReward * s.bpe }
+Delta(f2, f1, v, d) == Get(IF v \in DOMAIN f2 THEN f2[v] ELSE << >>, d) - Get(IF v \in DOMAIN f1 THEN f1[v] ELSE << >>, d)
+
+C16_Payout == [][
+  (PStep /\ Ev.a = "PAllocateOK") =>
+    LET c == Ev.args.c  d == Ev.args.d
+        moved == Get(p.pool, d) - Get(p'.pool, d)
+        el == EligibleForRewards(p, c)
+        vs == DOMAIN p.vals
+        paid == FoldSet(LAMBDA v, acc : acc + Delta(p'.outst, p.outst, v, d), 0, vs)
+        toComm == Get(p'.community, d) - Get(p.community, d)
+        n == Cardinality(vs) IN
+    /\ moved >= 0
+    /\ CreditInt(p', c, d) = CreditInt(p, c, d) - moved /\ CreditFrac(p', c, d) = CreditFrac(p, c, d)
+    /\ (moved > 0) => (d \in SeqToSet(p.regDenoms) \/ d \in SeqToSet(p.cons[c].allowDenoms))
+    \* only eligible members of this consumer's set are paid
+    /\ \A v \in vs : (v \notin el) => Delta(p'.outst, p.outst, v, d) = 0
+    /\ \A v \in vs : Delta(p'.outst, p.outst, v, d) >= 0
+    \* never more than was moved; nothing vanishes beyond sub-unit dust per participant
+    /\ paid + toComm <= moved + n + 1
+    /\ paid + toComm >= moved - (n + 1)
+    /\ toComm >= 0
+    \* shares follow consumer voting power (within one unit)
+    /\ \A v1, v2 \in el : (p.cons[c].cvs[v1].pow >= p.cons[c].cvs[v2].pow) =>
+         Delta(p'.outst, p.outst, v1, d) >= Delta(p'.outst, p.outst, v2, d) - 1
+    \* the per-consumer commission rate, when set, decides the validator's cut
+    /\ \A v \in el : (v \in DOMAIN p.cons[c].commissionBp) =>
+         LET got == Delta(p'.outst, p.outst, v, d)  cut == Delta(p'.commAcc, p.commAcc, v, d)
+             want == (got * p.cons[c].commissionBp[v]) \div 10000 IN
+         cut >= want - 1 /\ cut <= want + 1
+    \* other consumers' credits untouched
+    /\ \A c2 \in Cons(p) : (c2 # c) => p'.cons[c2].credit = p.cons[c2].credit
+  ]_vars
 
 =============================================================================
